@@ -107,6 +107,8 @@ pub struct Agg {
     pub extra: BTreeMap<String, Value>,
     pub exhaustive: Option<bool>,
     pub watchdogs: u64,
+    /// every unknown violation signature seen (development aid, printed with VERIF_ALL=1)
+    pub unknown_sigs: BTreeMap<String, u64>,
 }
 
 #[derive(Clone, Debug)]
@@ -120,6 +122,9 @@ impl Agg {
     pub fn merge(&mut self, o: Agg) {
         self.evaluations += o.evaluations;
         self.watchdogs += o.watchdogs;
+        for (k, v) in o.unknown_sigs {
+            *self.unknown_sigs.entry(k).or_default() += v;
+        }
         self.nontrivial.extend(o.nontrivial);
         for (k, v) in o.classes {
             *self.classes.entry(k).or_default() += v;
@@ -156,7 +161,10 @@ impl Agg {
             }
             match ctx.is_known(&v) {
                 Some(k) => *self.known_hits.entry(k.signature.clone()).or_default() += 1,
-                None => unknown.push(v),
+                None => {
+                    *self.unknown_sigs.entry(v.sig.clone()).or_default() += 1;
+                    unknown.push(v)
+                }
             }
         }
         if ev.nontrivial {
@@ -318,6 +326,11 @@ pub fn finish(ctx: &Ctx, agg: Agg, rep: Report) -> i32 {
     }
     for (k, v) in &agg.extra {
         coverage.insert(k.clone(), v.clone());
+    }
+    if std::env::var("VERIF_ALL").is_ok() {
+        for (k, v) in &agg.unknown_sigs {
+            println!("unknown-signature {k} x{v}");
+        }
     }
     let mut code = 0;
     let mut nviol = 0;
